@@ -6,7 +6,10 @@ import (
 	"strings"
 )
 
-func init() { registry["C10"] = checkC10 }
+func init() {
+	registry["C10"] = checkC10
+	harnessList = append(harnessList, "h10")
+}
 
 // commitPool: every commit object of the state, oldest first by chain position.
 func commitPool(a *Abs) []string {
@@ -91,7 +94,7 @@ func c10State(c *Ctx, n *Node) []Violation {
 }
 
 func checkC10(e *RunEnv) *CheckResult {
-	N := []string{"a", "ab", "a-b", "a.b", "b", "main"}
+	N := []string{"a", "ab", "a-b", "a.b", "b", "main", "C"}
 	spec := &Spec{
 		Seeds: []Seed{{"S0", seedS0()}, {"S1", seedS1()}, {"S2", seedS2()}},
 		Depth: e.pick(3, 4),
@@ -127,5 +130,33 @@ func checkC10(e *RunEnv) *CheckResult {
 		CheckTrans: c10Trans,
 		CheckState: c10State,
 	}
-	return runSpec(e, spec, nil)
+	var hsum *HarnessSummary
+	var hvs []Violation
+	runH := func() []Violation {
+		vs, sum := runHarness(e, "h10", nil, func(shard int, journal, stderr string) *Violation {
+			return &Violation{Oracle: "no-fatal", Command: "refs", Detail: "harness process died: " + stderr}
+		})
+		hsum = sum
+		return vs
+	}
+	res := runSpecWith(e, spec, func(x *Explorer) { hvs = runH() }, func(x *Explorer, cov map[string]interface{}) {
+		cov["in_module_histories"] = hsum.Evaluations
+		cov["in_module_distinct_end_states"] = hsum.Distinct
+		cov["evaluations"] = int(x.Transitions) + int(x.Probes) + hsum.Evaluations
+		cov["exhaustive"] = x.Exhaustive && hsum.Exhaustive
+	})
+	res.Violations = append(res.Violations, hvs...)
+	oldRejudge := res.Rejudge
+	var rerun []Violation
+	var rerunDone bool
+	res.Rejudge = func(v *Violation) []Violation {
+		if v.Case != nil {
+			if !rerunDone {
+				rerun, rerunDone = runH(), true
+			}
+			return rerun
+		}
+		return oldRejudge(v)
+	}
+	return res
 }
